@@ -214,6 +214,86 @@ def _cause(sig, ign):
     return 'other'
 
 
+def _w_longnames(task):
+    """parameters with real (multi-character) names, ignore given as one bare name, one bare index, or a tuple; the
+    decorator used directly or rebuilt from itself (copy, deepcopy, pickle, dill) before it is applied -- for each of the
+    twelve classes.  A bare string is a name, never a sequence of one-letter names"""
+    import copy
+    import pickle
+    import dill
+    import klepto
+    import klepto.safe
+    import klepto.keymaps as km
+    res = {'counts': collections.Counter(), 'violations': [], 'samples': [], 'nontrivial': 0, 'outcomes': [], 'config': 'longnames'}
+    src = 'def f(alpha, debug=0, *rest, verbose=False, **opts):\n    CALLS[0] += 1\n    return (alpha, debug, rest, verbose, tuple(sorted(opts.items())))\n'
+    calls = [((1,), {}), ((1, 5), {}), ((1,), {'debug': 7}), ((2,), {}), ((2, 5), {}), ((1,), {'verbose': True}), ((1, 0, 9), {}),
+             ((1,), {'extra': 3}), ((1, 5), {'verbose': True})]
+    # masked(binding) by ignore spec
+    def masked(b, ign):
+        alpha, debug, rest, verbose, opts = b
+        names = set(x for x in (ign if isinstance(ign, tuple) else (ign,)))
+        if 'alpha' in names or 0 in names:
+            alpha = '<ignored>'
+        if 'debug' in names or 1 in names:
+            debug = '<ignored>'
+        if 'verbose' in names:
+            verbose = '<ignored>'
+        return (alpha, debug, rest, verbose, opts)
+    vias = [('direct', lambda d: d), ('copy', copy.copy), ('deepcopy', copy.deepcopy),
+            ('pickle', lambda d: pickle.loads(pickle.dumps(d))), ('dill', lambda d: dill.loads(dill.dumps(d)))]
+    for mod in (klepto, klepto.safe):
+        for alg in ('no', 'inf', 'lfu', 'lru', 'mru', 'rr'):
+            for ign in ('debug', 'verbose', 1, ('debug',), ('debug', 'verbose'), ('alpha',)):
+                for vname, via in vias:
+                    ns = {'CALLS': [0], '__name__': 'vfw_generated'}
+                    exec(compile(src, '<c11 longnames>', 'exec'), ns)
+                    f = ns['f']
+                    kw = {} if alg in ('no', 'inf') else {'maxsize': 1000}
+                    cfgtxt = '%s.%s_cache(ignore=%r) %s' % (mod.__name__, alg, ign, 'used directly' if vname == 'direct' else 'rebuilt by %s' % vname)
+                    res['counts']['programs'] += 1
+                    try:
+                        W = via(getattr(mod, alg + '_cache')(keymap=km.stringmap(flat=False), ignore=ign, **kw))(f)
+                    except Exception as e:
+                        res['violations'].append(_v('C11', {'rule': 'decorator-cannot-be-rebuilt', 'via': vname, 'exc': type(e).__name__},
+                                                    '%s: %r' % (cfgtxt, e), {'task': 'longnames', 'config': cfgtxt}))
+                        continue
+                    groups = {}
+                    bykey = {}
+                    for a, k in calls:
+                        res['counts']['evaluations'] += 1
+                        mb = masked(f(*a, **k), ign)
+                        key = W.key(*a, **k)
+                        o = groups.setdefault(mb, (key, (a, k)))
+                        if o[0] != key:
+                            res['violations'].append(_v('C11', {'rule': 'ignored-argument-influences-key', 'form': 'longnames', 'cause': 'other', 'via': vname},
+                                                        '%s: calls %r and %r differ only in ignored arguments but get keys %r / %r' % (cfgtxt, o[1], (a, k), o[0], key),
+                                                        {'task': 'longnames', 'config': cfgtxt, 'calls': [o[1], (a, k)]}))
+                        o = bykey.setdefault(key, (mb, (a, k)))
+                        if o[0] != mb:
+                            res['violations'].append(_v('C11', {'rule': 'non-ignored-argument-lost', 'form': 'longnames', 'cause': 'other', 'via': vname},
+                                                        '%s: calls %r and %r differ in a non-ignored argument but share key %r' % (cfgtxt, o[1], (a, k), key),
+                                                        {'task': 'longnames', 'config': cfgtxt, 'calls': [o[1], (a, k)]}))
+                    res['nontrivial'] += sum(1 for _ in groups)
+                    if alg != 'no':
+                        n0 = ns['CALLS'][0]
+                        for a, k in calls:
+                            W(*a, **k)
+                        if ns['CALLS'][0] - n0 != len(groups) and not res['violations']:
+                            res['violations'].append(_v('C11', {'rule': 'reevaluated-for-ignored-argument', 'form': 'longnames', 'cause': 'other', 'via': vname},
+                                                        '%s: %d distinct masked bindings but %d evaluations' % (cfgtxt, len(groups), ns['CALLS'][0] - n0),
+                                                        {'task': 'longnames', 'config': cfgtxt}))
+    res['samples'].append({'function': src.split('\n')[0], 'ignore': 'debug', 'calls_sharing_one_entry': [[[1], {}], [[1, 5], {}], [[1], {'debug': 7}]]})
+    res['counts'] = dict(res['counts'])
+    res['config_summary'] = 'multi-character parameter names x bare / tuple ignore x decorator used directly or rebuilt'
+    return res
+
+
+def _dispatch(task):
+    if task[0] == 'longnames':
+        return _w_longnames(task)
+    return _worker(task)
+
+
 def run(tier, seed):
     rep = Report('C11', tier, seed, 'exploration',
                  'signature grammar x {function, method with self ignored by name, method with the instance at index 0} x ignore specs (subsets of names, indices, *, **) x call forms x keymaps; '
@@ -223,7 +303,7 @@ def run(tier, seed):
     specs = [s for s in spec_list(tier) if len(s) == 5]
     if tier == 'thorough':
         specs = [s for s in specs if s[0] <= 3]
-    for res in pool.run_configs(_worker, [(tier, s) for s in specs], seed=seed):
+    for res in pool.run_configs(_dispatch, [(tier, s) for s in specs] + [('longnames', tier)], seed=seed):
         rep.merge(res)
     rep.extra['signatures'] = len(specs)
     rep.extra['ignore_specs'] = len(ignore_specs(tier, False))
